@@ -313,9 +313,24 @@ Fixpoint part_loop (n : nat) (l : list item) (i j right : nat) (h : bool)
       else part_loop n' l (S i) j right h
   end.
 
-(* rtree/bulk.go:quickPartition, the outer `for` loop.  Indices are nat: the proof of
-   [quick_partition_total] shows left <= j <= right and k <= right-left at every iteration, so
-   no subtraction below is truncated. *)
+(* rtree/bulk.go:quickPartition, one iteration of the outer `for` loop in the general case
+   (pivot selection, partition, restoring the pivot, choice of the side that holds the k-th
+   element); [rec] stands for the next iteration. *)
+Definition qp_body (rec : list item -> nat -> nat -> nat -> Z -> outcome (list item))
+           (l : list item) (left right k : nat) (h : bool) (st : Z) : outcome (list item) :=
+  let st' := lcg_next st in
+  let pivot := (left + lcg_pick st' (right - left + 1))%nat in
+  do l1 <- (if (pivot =? right)%nat then Ok l else swap l pivot right);
+  do lj <- part_loop (right - left) l1 left left right h;
+  let (l2, j) := (lj : list item * nat) in
+  do l3 <- swap l2 right j;
+  if (j - left <? k)%nat then rec l3 (j + 1)%nat right (k - (j - left + 1))%nat st'
+  else if (k <? j - left)%nat then rec l3 left (j - 1)%nat k st'
+  else Ok l3.
+
+(* rtree/bulk.go:quickPartition, the outer `for` loop with its 2- and 3-element special cases.
+   Indices are nat: the proof of [quick_partition_total] shows left <= j <= right and
+   k <= right-left at every iteration, so no subtraction is truncated. *)
 Fixpoint qp_loop (fuel : nat) (l : list item) (left right k : nat) (h : bool) (st : Z)
   : outcome (list item) :=
   match fuel with
@@ -329,16 +344,7 @@ Fixpoint qp_loop (fuel : nat) (l : list item) (left right k : nat) (h : bool) (s
           if (c : bool)
           then do l2 <- swap l1 (left + 2)%nat (left + 1)%nat; cswap l2 (left + 1)%nat left h
           else Ok l1
-      | _ =>
-          let st' := lcg_next st in
-          let pivot := (left + lcg_pick st' (right - left + 1))%nat in
-          do l1 <- (if (pivot =? right)%nat then Ok l else swap l pivot right);
-          do lj <- part_loop (right - left) l1 left left right h;
-          let (l2, j) := (lj : list item * nat) in
-          do l3 <- swap l2 right j;
-          if (j - left <? k)%nat then qp_loop f l3 (j + 1)%nat right (k - (j - left + 1))%nat h st'
-          else if (k <? j - left)%nat then qp_loop f l3 left (j - 1)%nat k h st'
-          else Ok l3
+      | _ => qp_body (fun l' lf rg k' s' => qp_loop f l' lf rg k' h s') l left right k h st
       end
   end.
 Definition quick_partition (l : list item) (k : nat) (h : bool) : outcome (list item) :=
